@@ -5,7 +5,9 @@
 (* combination of step/signal, known/unknown IDs, runs, accepted/rejected raw  *)
 (* inputs and handler behaviours the constants allow; the steps in MapSteps    *)
 (* - input scope map-based - are also called with the raw input classes        *)
-(* MapInputs: defaulted property omitted, lenient representations); Next       *)
+(* MapInputs: defaulted property omitted, lenient representations; the steps   *)
+(* in ShortSteps - input object with exactly one property - with ShortInputs:  *)
+(* a bare non-map value as shorthand); Next                                    *)
 (* interleaves them.                                                           *)
 (*                                                                             *)
 (* Normal = FALSE: every interleaving of every stage (the properties are       *)
@@ -25,6 +27,9 @@ CONSTANTS Inputs,       \* raw input classes used (for every step and signal)
                         \* unserialized value and raw input are both map[string]any; handler typed map[string]any)
           MapInputs,    \* accepted raw input classes used, in addition, for the steps in MapSteps: "vd" (a
                         \* defaulted property omitted), "vl" (values accepted by lenient conversion)
+          ShortSteps,   \* steps whose input object and signal data object have EXACTLY ONE property: a bare value
+                        \* that is not a map is shorthand for the object with that property
+          ShortInputs,  \* accepted raw input classes used, in addition, for the steps in ShortSteps: "vs"
           BehSet,       \* step handler behaviours used
           MapBehs,      \* behaviours used, in addition, for the steps in MapSteps (their OUTPUT scopes are map-based
                         \* too): "okr" (conforming data whose in-memory form differs from its serialized form)
@@ -44,6 +49,7 @@ B1 == IF "ok" \in BehSet THEN "ok" ELSE B0
 
 ASSUME MapInputs \subseteq ValidInputs
 ASSUME MapBehs \subseteq Behs
+ASSUME ShortInputs \subseteq ValidInputs
 
 StepCalls ==
     {MkCall("step", s, r, "none", i, B0) : s \in StepIds, r \in Runs, i \in Inputs \ ValidInputs}
@@ -51,11 +57,13 @@ StepCalls ==
     \cup {MkCall("step", s, r, "none", i, B1) : s \in MapSteps \cap StepIds, r \in Runs, i \in MapInputs \ Inputs}
     \cup {MkCall("step", s, r, "none", i, b) : s \in MapSteps \cap StepIds, r \in Runs, i \in Inputs \cap ValidInputs,
                                                 b \in MapBehs \ BehSet}
+    \cup {MkCall("step", s, r, "none", i, B1) : s \in ShortSteps \cap StepIds, r \in Runs, i \in ShortInputs \ Inputs}
     \cup (IF WithUnknown THEN {MkCall("step", NoStep, R0, "none", V0, B0)} ELSE {})
 
 SignalCalls ==
     {MkCall("signal", s, r, SigId, i, "none") : s \in StepIds, r \in Runs, i \in Inputs}
     \cup {MkCall("signal", s, r, SigId, i, "none") : s \in MapSteps \cap StepIds, r \in Runs, i \in MapInputs \ Inputs}
+    \cup {MkCall("signal", s, r, SigId, i, "none") : s \in ShortSteps \cap StepIds, r \in Runs, i \in ShortInputs \ Inputs}
     \cup (IF WithUnknown
           THEN {MkCall("signal", s, r, NoSig, V0, "none") : s \in StepIds, r \in Runs}
                \cup {MkCall("signal", NoStep, R0, SigId, V0, "none")}
@@ -98,5 +106,5 @@ Export ==
     (AllDone /\ KeepHist) =>
         Emit([calls |-> call, hist |-> hist, ledger |-> ledger, res |-> res,
               ic |-> initCount, sd |-> stepData, racy |-> racy, noinit |-> NoInitSteps,
-              mapsteps |-> MapSteps])
+              mapsteps |-> MapSteps, shortsteps |-> ShortSteps])
 =============================================================================
